@@ -2,6 +2,7 @@ package scen
 
 import (
 	"context"
+	"crypto"
 	"encoding/base64"
 	"encoding/hex"
 	"encoding/json"
@@ -356,6 +357,18 @@ func runC18(c *engine.Ctx) {
 	if wsIDs && p.Draw(4, "set:request-ws") == 3 {
 		// requested ids that are not in the file as such (they only resemble one after trimming, or are blank)
 		req = []string{" ", "a", "a \n", "aa "}[p.Draw(4, "set:request-wsv")]
+	}
+	if len(set) > 0 && p.Draw(10, "set:request-thumbprint") == 9 {
+		// a requested id that is no key's id but IS the RFC 7638 thumbprint of one of the keys: still absent
+		k := set[p.Draw(len(set), "set:request-thumbprint-of")]
+		if raw, err := json.Marshal(k.obj); err == nil {
+			if pk, err := jwk.ParseKey(raw); err == nil {
+				if tp, err := pk.Thumbprint(crypto.SHA256); err == nil {
+					req = base64.RawURLEncoding.EncodeToString(tp)
+					c.Probe("requested_id_is_a_thumbprint")
+				}
+			}
+		}
 	}
 	var objs []map[string]any
 	var descs []string
